@@ -677,6 +677,10 @@ func (db *SpecDB) readFile(prog *ssa.Program, p *packages.Package, spkg *ssa.Pac
 				for _, n := range dir[1:] {
 					db.detFns[expandName(n)] = true
 				}
+			case "nullable-result":
+				for _, n := range dir[1:] {
+					db.nullable[expandName(n)] = true
+				}
 			case "keeps-args":
 				for _, n := range dir[1:] {
 					db.keepsArgs[expandName(n)] = true
